@@ -29,6 +29,13 @@ CHECKS = {
         note="Trusted: TLC; numpy/scipy lpmv for the oracle. The general-direction inside/outside decision of perturbed shapes is a numeric comparison (cells within 1e-9 of the interface skipped), not model checking. Found and repaired F3 (NaN for a 3-D perturbed droplet on a cell centre) and F4 (axisymmetric droplets could not be rendered).",
         ref="§3 C03",
     ),
+    "C04": dict(
+        level="other",
+        technique="TLA+ spec Refine.tla: the protocol of refine_droplet around the black-box solver (Promote, DefaultWidth, Region, FreeMask, Bounds, Solve = any non-worsening step inside the bounds, Wrap) model-checked by TLC on every request; spec->code conformance with scipy's least_squares replaced by a recording proxy",
+        text="TLC checks ClassKept, ConstraintsFrozen, BoundsLayout, RadiusWidthBounded, NeverWorse, WrapRespectsSymmetry, Termination on all requests family (10 grid families incl. periodicity) x candidate class (5) x modes x width option x level option (quick 100, thorough 360). Each request is executed on clean, noisy, self-rendered and neighbour-disturbed images (thorough: three grid spacings) with candidates displaced from the truth, outside the box on periodic axes and off the symmetry axis: the start vector and bounds handed to the solver must have the spec's layout (free parameters, 0 / -1 / 1 / inf pattern, two intensity parameters); the number of residuals must equal the documented region (binary image dilated 1+floor(2w) times); the handed-over objective and the independently recomputed documented deviation must not increase; result class/layout, radius, width >= 0, |amplitudes| <= 1, finite; frozen coordinates bit-identical; position inside the box on periodic axes; image bytes unchanged; self-rendered image returns the candidate within 1e-5 spacings.",
+        note="Level 'other': model checking of the protocol plus conformance observation of an opaque numeric step; nothing is claimed about the optimiser's quality. Found and repaired F12 (start vector used vmax for the range) and F17 (off-axis candidates rotated on symmetric grids).",
+        ref="§3 C04",
+    ),
     "C06": dict(
         level="model_checking",
         technique="TLA+ spec Tracking.tla model-checked by TLC (exhaustive lattice histories) + spec->code replay + code->spec trace validation (TraceTracking.tla)",
